@@ -147,7 +147,14 @@ def _load_from_file_system(hashed_grammar, path, p_time, cache_path=None):
                 gc.enable()
     except FileNotFoundError:
         return None
+    except Exception:
+        # An empty, truncated or otherwise corrupt cache file (e.g. left behind
+        # by a crash or by another process that is currently writing it) is
+        # nothing more than a cache miss.
+        return None
     else:
+        if not isinstance(module_cache_item, _NodeCacheItem):
+            return None
         _set_cache_item(hashed_grammar, path, module_cache_item)
         LOG.debug('pickle loaded: %s', path)
         return module_cache_item.node
